@@ -515,6 +515,32 @@ def run(ctx):
     if n_na < 4:
         ctx.unknown('R07q', m, None, 'only %d reads through nodeargd found in the converter' % n_na, construct='nodeargd reads')
 
+    # ---- R07r: an argument looked up by number exists
+    ctx.rule('R07r', 'the converter indexes an argument list with a variable (`<x>.argnlist[k]`) only where `k < len(<x>.argnlist)` '
+                     'holds on the path (or its equivalents): `len(..) < k` as the "no such argument" test lets k == len through, '
+                     'and a font macro taken as a single-token argument (\\hat\\mathbf x: zero arguments, k = 0) raises IndexError', 1)
+    n_vi = 0
+    for q_, f_ in sorted(m.functions.items()):
+        for x_ in ast.walk(f_):
+            if not (isinstance(x_, ast.Subscript) and isinstance(x_.ctx, ast.Load) and unparse(x_.value).endswith('.argnlist')
+                    and isinstance(x_.slice, ast.Name)):
+                continue
+            n_vi += 1
+            V, k_ = unparse(x_.value), x_.slice.id
+            atoms = set()
+            for t_, p_ in list(atomic_facts(x_)) + list(_scf7(x_)):
+                for a_, ap_ in symex._atoms(t_, p_):
+                    atoms.add((unparse(a_), ap_))
+            want = [('%s < len(%s)' % (k_, V), True), ('len(%s) > %s' % (V, k_), True), ('%s >= len(%s)' % (k_, V), False),
+                    ('len(%s) <= %s' % (V, k_), False), ('not %s < len(%s)' % (k_, V), False)]
+            ctx.decide('R07r', any(w_ in atoms for w_ in want), m, x_, '%s under %s < len' % (short(x_, 40), k_),
+                       '%s reads %s where the facts are only [%s]: nothing excludes %s == len(%s) -- a macro that was parsed '
+                       'without arguments (read as the single-token argument of another macro) and k = 0 raise IndexError'
+                       % (q_, short(x_, 40), '; '.join(sorted(('' if ap_ else 'not ') + t_ for t_, ap_ in atoms))[:150], k_, V),
+                       construct='%s: %s' % (q_, short(x_, 40)))
+    if not n_vi:
+        ctx.unknown('R07r', m, None, 'no variable index into an argument list found', construct='argument index')
+
     # ---- R07p: None entries of a node list
     ctx.rule('R07p', 'nodelist_to_text: the element of the list (which may be None: replacement callables pass [optarg] for an '
                      'absent argument, and node_to_text(None) is \'\') is dereferenced only behind `node is not None` or behind '
